@@ -28,6 +28,7 @@ ASSUMPTIONS = [
 ]
 MIN_NONTRIVIAL_FRACTION = 0.3
 RULE += " Added after the seeded rounds: " + 'Wires are generated against a random topological order (producers declared after consumers, parallel wires from one producer); a second execution of the same diagram must equal the first.'
+RULE += " Round 8: the set returned by required_capabilities() is emptied by the caller and the question asked again."
 EXHAUSTIVE_NOTE = {"quick": "connect() over all 21 x 21 port-type pairs (441), complete", "thorough": "connect() over all 21 x 21 port-type pairs (441), complete"}
 
 DT = ["TEXT", "JSON", "IMAGE", "TOOL_CALL", "ERROR", "STOP", "APPROVAL"]
@@ -171,6 +172,18 @@ def judge(case):
     if caps != want_caps:
         out.fail("capabilities:not-union", "required_capabilities() = %s, union = %s" % (sorted(c.name for c in caps), sorted(c.name for c in want_caps)), None)
         return out
+    else:
+        # the answer is the caller's to keep: whatever the caller does with the returned collection (the usual `missing = d.required_capabilities();
+        # missing -= granted`), the diagram's requirement stays the union over its modules
+        try:
+            caps.clear()
+        except (AttributeError, TypeError):
+            pass                      # an immutable answer is fine too
+        again = diagram.required_capabilities()
+        if set(again) != want_caps:
+            out.fail("capabilities:answer-aliases-internal-state", "after the caller emptied the returned set, required_capabilities() = %s, union = %s"
+                     % (sorted(c.name for c in again), sorted(c.name for c in want_caps)), None)
+            return out
 
     # ---- reference schedulability
     reasons = []
